@@ -163,6 +163,7 @@ func runC12(c *Ctx) {
 	}
 
 	checkLeaseReleaseNamesSpentOutpoint(c, "C12-R4")
+	checkDecodedOutPointHasBothHalves(c, "C12-R4")
 	// the wallet lists every live lease
 	checkNoEarlySuccessExit(c, "C12-R3", "lease-listing-visits-every-lease", c.P.Func("wallet", "Wallet", "ListLeasedOutputs"), "",
 		"Wallet.ListLeasedOutputs can stop with a success answer before every lease was looked at: one stale lease record hides every live lease that sorts after it")
